@@ -106,8 +106,8 @@ theorem readArgs_run (tol : Bool) (m : Mode) (sg : Int × Int) (a1 a2 a3 a4 : Li
     · rw [if_pos (by simp [hpos.1, hpos.2])] at hrun
       simp only [Bool.and_eq_true, Bool.or_eq_true, decide_eq_true_eq, List.isEmpty_iff,
         Bool.not_eq_true', List.isEmpty_eq_false_iff] at hrun
-      obtain ⟨⟨⟨⟨h3, h4⟩, hl1⟩, hl2⟩, hfol⟩ := hrun
-      subst h3 h4
+      obtain ⟨⟨⟨⟨⟨h4, ht3⟩, h32⟩, hl1⟩, hl2⟩, hfol⟩ := hrun
+      subst h4
       simp only [toksA_nil, treesA_nil, List.nil_append, List.append_nil, List.length_nil,
         Nat.zero_add] at hf ⊢
       by_cases hz : (sg.1 == 0 && sg.2 == 0) = true
@@ -115,42 +115,58 @@ theorem readArgs_run (tol : Bool) (m : Mode) (sg : Int × Int) (a1 a2 a3 a4 : Li
         simp only [Bool.and_eq_true, beq_iff_eq] at hz
         have e1 : a1 = [] := List.eq_nil_of_length_eq_zero (by omega)
         have e2 : a2 = [] := List.eq_nil_of_length_eq_zero (by omega)
-        subst e1 e2
+        have e3 : a3 = [] := List.eq_nil_of_length_eq_zero (by omega)
+        subst e1 e2 e3
         simp only [toksA_nil, treesA_nil, List.nil_append]
         unfold readArgs
         rw [if_pos (by simp [hz.1, hz.2])]
-      · have e : treesA GKind.bracket a1 ++ treesA GKind.brace a2 =
-            treesA GKind.bracket a1 ++ (treesA GKind.brace a2 ++ ([] ++ [])) := by simp
+      · have e : treesA GKind.bracket a1 ++ (treesA GKind.brace a2 ++ treesA GKind.bracket a3) =
+            treesA GKind.bracket a1 ++ (treesA GKind.brace a2 ++ (treesA GKind.bracket a3 ++ [])) := by simp
         rw [e]
         have hstop1 : sg.2 - (a1.length : Int) = 0 ∨
-            (hdCat (afterSp (toksA a2 ++ rest)) != some TC.BracketBegin) = true := by
-          rcases hfol with h | h
-          · left; omega
-          · right
-            cases a2 with
-            | nil =>
-              simp only [toksA_nil, List.nil_append]
+            (hdCat (afterSp (toksA a2 ++ (toksA a3 ++ rest))) != some TC.BracketBegin) = true := by
+          cases a2 with
+          | cons b bs => right; rw [hdCat_afterSp_run _ w2]; decide
+          | nil =>
+            have e3 : a3 = [] := by
+              rcases h32 with h | h
+              · exact h
+              · exact absurd rfl h
+            subst e3
+            simp only [toksA_nil, List.nil_append]
+            rcases hfol with h | h
+            · left; simp only [List.length_nil] at h; omega
+            · right
+              simp only [List.isEmpty_nil, if_true, Bool.and_eq_true, Bool.or_eq_true,
+                Bool.not_eq_true'] at h
               rcases h.2 with h' | h'
-              · exact absurd rfl h'
+              · cases h'
               · exact h'
-            | cons b bs => rw [hdCat_afterSp_run rest w2]; decide
         refine readArgs_phases (by simpa using hz)
-          (readArgOpt_run tol m a1 k1 w1 sg.2 _ g (.inr hl1) hstop1
+          (readArgOpt_run tol m a1 k1 w1 sg.2 _ g (.inr (by omega)) hstop1
             (by simp only [List.length_append]; omega))
           (readArgReq_run tol m a2 k2 w2 sg.1 _ g (.inr (by omega)) (.inl (by omega))
             (by simp only [List.length_append]; omega))
-          (T3 := rest) (c3 := sg.2 - a1.length) (c4 := sg.1 - a2.length) ?_ ?_
-        · have := phaseOpt tol m [] (by intro a ha; cases ha) (by simp [WFa]) (sg.2 - a1.length) rest g
-            (by simp; omega)
-            (fun _ => by
+          (phaseOpt tol m a3 k3 w3 (sg.2 - a1.length) rest g (.inr (by omega))
+            (fun h3 => by
+              subst h3
+              rcases hfol with h | h
+              · left; simp only [List.length_nil] at h; omega
+              · right
+                simp only [if_true, Bool.and_eq_true] at h
+                exact nextIs_false_of_hdCat h.1)
+            (fun h3 => ⟨ht3, by
               rcases hfol with h | h
               · left; omega
-              · right; exact nextIs_false_of_hdCat h.1)
-            (fun h => absurd rfl h) (by simp; omega)
-          simpa using this
-        · have := phaseReq tol m [] (by intro a ha; cases ha) (by simp [WFa]) (sg.1 - a2.length) rest g
-            (by simp; omega) (fun _ => .inl (by omega)) (fun h => absurd rfl h) (by simp; omega)
-          simpa using this
+              · right
+                cases a3 with
+                | nil => exact absurd rfl h3
+                | cons c cs => simpa using h⟩)
+            (by simp only [List.length_append]; omega))
+          (T4 := rest) (c4 := sg.1 - a2.length) ?_
+        have := phaseReq tol m [] (by intro a ha; cases ha) (by simp [WFa]) (sg.1 - a2.length) rest g
+          (by simp; omega) (fun _ => .inl (by omega)) (fun h => absurd rfl h) (by simp; omega)
+        simpa using this
     · rw [if_neg (by simpa using hpos)] at hrun
       cases hrun
 
